@@ -50,13 +50,13 @@ def state_of(p, cp=None, stdout=None):
 
 
 def run_path(text, method="collect", policy=None, delimiter=",", quotechar='"',
-             nexts=None, want_stdout=False, csvpaths=None, pre=None):
+             nexts=None, want_stdout=False, csvpaths=None, pre=None, printer=True):
     """Parse + run `text` on a fresh CsvPath.  Returns dict with 'lines' (or None),
     'raised' (json or None) and the state tuple."""
     buf = io.StringIO()
     with warnings.catch_warnings(), contextlib.redirect_stdout(buf):
         p, cp = new_path(policy=policy, delimiter=delimiter, quotechar=quotechar,
-                         csvpaths=csvpaths)
+                         csvpaths=csvpaths, printer=printer)
         lines = None
         raised = None
         try:
